@@ -112,3 +112,42 @@ def register(claim):
                'temporary and canary directories, and checks offset and lengths for all byte-string pairs of <= 3 bytes.',
           note=NOTE_COMMON + ' The final newline of the raw actual file is not demanded.',
           ref='DESIGN.md section 5, C15')
+    REX_NOTE = (NOTE_COMMON + ' The character-class table (which classes each Category expression matches, isdigit, ...) is '
+                'regenerated from the running interpreter and the working tree at every run and is the only source of '
+                'facts about characters; matching is judged by re.fullmatch with UNICODE|DOTALL.')
+    claim('C03',
+          technique='TLA+ session model of the sample/extract/check/extend loop (RexLoop.tla, TLC exhaustive over parameter '
+                    'space, liveness under fairness) + TLA+ case analysis of fragment refinement over character classes '
+                    '(RexFrag.tla); recorded runs of the real Extractor validated step by step by Trace_RexLoop',
+          text='TLC shows that the repaired designs are sound (Covered, Terminates on 11k states; FragSound on every set of <= 3 of '
+               'the interpreter\'s character classes x extra letters x dialect x arrangement) and that the pinned deviations are not; '
+               'the harness replays every class set as real example lists and 700/4000 rich random runs (all options, Size 1..3 that '
+               'force sampling, seeds) whose loop steps - working set, match sets by real re, reported failures, PRNG draws - are bound '
+               'to the specification\'s variables.  An unmatched example is a violation unless a named deviation explains it.',
+          note=REX_NOTE + ' Known findings D4, D5a, D5b, D6.',
+          ref='DESIGN.md section 5, C03')
+    claim('C13',
+          technique='RexFrag / RexLoop TLA+ models (TLC) for the design; every recorded result and its tag-flipped twin is one '
+                    'trace line (match sets by re, compile/anchor facts) judged by Trace_RexResult',
+          text='900/5000 runs (fragment-targeted class sets and rich multisets, pruning options, Size settings, seeds): each returned '
+               'expression must compile, be anchored, match some example, appear once, and be no more numerous than distinct '
+               'examples; tagged and untagged runs must have identical match sets.',
+          note=REX_NOTE + ' Known findings D4, D5a, D5b (an expression built from digit-like characters matches nothing).',
+          ref='DESIGN.md section 5, C13')
+    claim('C14',
+          technique='RexLoop.tla PRNG discipline (SeededOnly, PrngRestored) checked by TLC in the repaired and the seed-late order; '
+                    'pairs of real calls that must agree recorded as trace lines and judged by Trace_RexResult',
+          text='450/2500 inputs x {permuted, reversed, frequency dictionary, example repeated, call repeated, cleared memo} with '
+               'random.getstate() hashed before and after every seeded call (incl. empty inputs), fragments with more than '
+               'max_strings_in_group distinct values, and Size settings that force sampling.',
+          note=REX_NOTE + ' Order independence is demanded when no random sampling takes place.',
+          ref='DESIGN.md section 5, C14')
+    claim('C18',
+          technique='TLA+ transcription of the greedy incremental-coverage loop with its accounting postconditions '
+                    '(RexCoverage.tla, TLC exhaustive over all 3x3 / 3x4 match matrices x frequencies x dedup, termination); the '
+                    'figures reported by real Extractor objects are judged with the same operators by Trace_RexCoverage',
+          text='For 800/4000 real extractions (lists with repeats, frequency dictionaries with keys that collapse under strip, pruning '
+               'options, dedup on/off) the harness logs the true match matrix and the reported n / n_uniq / incr / incr_uniq / '
+               'coverage() / n_examples(); the spec requires exact coverage, credited-once, non-increasing order, sums and counts.',
+          note=REX_NOTE + ' Demanded when the object stores the supplied multiset; known finding D16 (sampling keeps the working sample).',
+          ref='DESIGN.md section 5, C18')
